@@ -18,6 +18,7 @@ let src_of s =
   if s.[0] = 'g' then SrcGiven (nat_ rest) else SrcFd (nat_ rest)
 let sd_of s =
   if s = "i" then SdIgnore
+  else if s = "b" then SdBadPipe
   else if s.[0] = 'p' then SdPipe (nat_ (String.sub s 1 (String.length s - 1)))
   else SdInherit
 
